@@ -59,6 +59,22 @@ func c11KnownCases() map[string]c11Case {
 			}},
 			{K: "method", Name: amlSeg("MTH1"), Abs: "\\MTH1", Argc: 1, Stmts: ret0},
 		}}},
+		// an IndexField object is registered under the name of its index register:
+		// when it precedes the field unit of that name in the scope's list (here the
+		// unit arrives later, through a Scope(\) merge) references bind to the
+		// IndexField object instead of the unit
+		"F-C11f-indexfield-shadows-unit": {Tables: [][]amlObj{{
+			{K: "scope", Name: amlName{Root: true}, Abs: "\\", Body: []amlObj{
+				{K: "opregion", Name: amlSeg("REG0"), Abs: "\\REG0", OffK: "zero", LenK: "byte", Len: 16},
+				{K: "field", Region: amlSeg("REG0"), Abs: "\\", Elems: []amlFieldElem{{K: "named", Name: "IDX0", Bits: 8}, {K: "named", Name: "DAT0", Bits: 8}}},
+			}},
+			{K: "indexfield", Region: amlSeg("IDX0"), DataN: amlSeg("DAT0"), Abs: "\\", Elems: []amlFieldElem{{K: "named", Name: "UNT0", Bits: 8}}},
+			{K: "method", Name: amlSeg("MTH0"), Abs: "\\MTH0", Argc: 0, Stmts: []amlStmt{
+				{K: "store", E: &amlExpr{K: "ref", Name: "IDX0"}, T: loc(0)},
+				{K: "expr", E: &amlExpr{K: "call", Name: "MTH1", Args: []amlExpr{{K: "ref", Name: "IDX0"}}}},
+			}},
+			{K: "method", Name: amlSeg("MTH1"), Abs: "\\MTH1", Argc: 1, Stmts: ret0},
+		}}},
 	}
 }
 
